@@ -5,16 +5,35 @@ renumbered by first appearance (ids start at the wall clock of the process)."""
 import random, datetime, copy
 import bundle as B, trading
 
-KINDS = ["stock", "future", "mixed", "t0", "noreinvest", "fail", "analyser", "initpos", "rebalance"]
+KINDS = ["stock", "future", "mixed", "t0", "noreinvest", "fail", "analyser", "initpos", "rebalance", "splithold"]
 
 
 def build(spec):
     rnd = random.Random(spec["seed"])
     kind = spec["kind"]
-    wf = {"stock": False, "t0": False, "noreinvest": False, "future": True, "mixed": True, "initpos": True, "rebalance": False}.get(kind)
-    S = B.gen_market(rnd, ndays=rnd.randrange(6, 14), with_future=wf, n_stocks=0 if kind == "future" else (3 if kind == "rebalance" else None),
-                     opts={"p_delist": 0, "p_sus": 0, "p_thin": 0} if kind == "rebalance" else None)
+    wf = {"stock": False, "t0": False, "noreinvest": False, "future": True, "mixed": True, "initpos": True, "rebalance": False, "splithold": False, "decsell": False}.get(kind)
+    opts = {"p_delist": 0, "p_sus": 0, "p_thin": 0} if kind == "rebalance" else None
+    if kind == "splithold":        # a holding carried over a split (share quantities recomputed with the decimal module)
+        opts = {"kinds": ["CS"], "p_delist": 0, "p_sus": 0, "p_split": 1.0, "p_div": 0}
+    if kind == "decsell":
+        opts = {"kinds": ["CS"], "p_delist": 0, "p_sus": 0, "p_split": 0, "p_div": 0, "p_thin": 0, "p_limit": 0}
+    S = B.gen_market(rnd, ndays=rnd.randrange(8, 14) if kind in ("splithold", "decsell") else rnd.randrange(6, 14), with_future=wf,
+                     n_stocks=0 if kind == "future" else (3 if kind == "rebalance" else 1 if kind in ("splithold", "decsell") else None), opts=opts)
     cfgk = trading.gen_config(rnd, S, {"no_signal": True})
+    if kind in ("splithold", "decsell"):
+        cfgk["accounts"] = {"stock": 1000000.0}
+        st0 = S["stocks"][0]
+        cfgk["base_extra"] = dict(cfgk.get("base_extra") or {}, init_positions="%s:1000" % st0["id"])
+    if kind == "decsell":
+        # value-based sales whose quotient value/price is a whole number only after rounding to the module's 10 significant digits:
+        # every bar closes at a price whose double lies above its decimal value; the directed plan sells exact multiples of it
+        px = rnd.choice([11.3, 14.9, 33.34])
+        for i in sorted(st0["bars"]):
+            b = st0["bars"][i]
+            st0["bars"][i] = (b[0], px, px, px, px, 1e6, 1e6 * px, round(px * 1.1, 2), round(px * 0.9, 2))
+        S["_decsell"] = px
+        cfgk["sim"].update(volume_limit=False, signal=False, slippage=0, matching_type="current_bar")
+        cfgk["accounts_mod"]["stock_t1"] = True
     if kind == "future":
         cfgk["accounts"].pop("stock", None)
     if "stock" not in cfgk["accounts"]:
